@@ -301,8 +301,22 @@ func run(c Case) ev.Verdict {
 	got := append([]string(nil), d.ServerCapabilities()...)
 	wantCaps := append([]string(nil), c.Hello.Caps...)
 
-	sort.Strings(got)
-	sort.Strings(wantCaps)
+	// (as sets: a uri the hello lists twice is one capability)
+	dedup := func(l []string) []string {
+		sort.Strings(l)
+
+		var out []string
+
+		for i, x := range l {
+			if i == 0 || x != l[i-1] {
+				out = append(out, x)
+			}
+		}
+
+		return out
+	}
+
+	got, wantCaps = dedup(got), dedup(wantCaps)
 
 	if strings.Join(got, "\x00") != strings.Join(wantCaps, "\x00") {
 		return ev.Fail("ServerCapabilities() = %q, want (in any order) %q", d.ServerCapabilities(), c.Hello.Caps)
